@@ -7,7 +7,7 @@
 //! Oracle: no litep2p panic on the victim's threads, and the victim keeps serving — afterwards an honest third node
 //! connects, gets a request answered and completes a Kademlia lookup through the victim.
 
-use super::c19::{apply, mut_strategy, valid_encoding, Mut, Target};
+use super::c19::{apply, kad_response_encoding, mut_strategy, valid_encoding, Mut, Target};
 use crate::common::uvarint;
 use crate::engine::{CaseFail, CaseOk, CaseResult};
 use crate::f4::{full_address, rr_request, wait_until, Cmd, KadCmd, KadSetup, Log, Node, NodeSetup, NotifSetup, Obs, ObsKind, ProbeCmd, RawReply, RrSetup, NOTIF_PROTOCOL, RR_PROTOCOL};
@@ -112,6 +112,8 @@ fn target_of(proto: usize) -> Option<Target> {
 fn body_bytes(proto: usize, b: &Body) -> Vec<u8> {
     match b {
         Body::Mutated { base, other, muts } => match target_of(proto) {
+            // half of the Kademlia bodies are replies with peers (what the victim reads when it runs a query)
+            Some(Target::KadMessage) if base % 2 == 0 => apply(kad_response_encoding(*base), muts, &valid_encoding(Target::KadMessage, *other)),
             Some(t) => apply(valid_encoding(t, *base), muts, &valid_encoding(t, *other)),
             None => {
                 // ping: 32 bytes; request-response: a request of the harness' layout; notifications: a small handshake
